@@ -102,6 +102,16 @@ fn map_record(gen_rel: &str, gen_text: &str, map_text: &str) -> Value {
                    "file": m.get("file").cloned().unwrap_or(json!(""))}})
 }
 
+/// module specifier of the `import type * as X from "..."` statement, split at '/'
+fn star_import_from(ast: &Value) -> Vec<String> {
+    for s in ast["stmts"].as_array().unwrap() {
+        if s["k"] == "import" && s["star"].as_str().map(|x| !x.is_empty()).unwrap_or(false) {
+            return s["from"].as_str().unwrap_or("").split('/').filter(|x| !x.is_empty()).map(|x| x.to_string()).collect();
+        }
+    }
+    vec![]
+}
+
 fn star_import(ast: &Value) -> String {
     for s in ast["stmts"].as_array().unwrap() {
         if s["k"] == "import" && s["star"].as_str().map(|x| !x.is_empty()).unwrap_or(false) {
@@ -115,7 +125,7 @@ fn read_file(written: &std::collections::BTreeMap<String, String>, name: &str) -
     match written.get(name) {
         None => json!({"k": "missing"}),
         Some(t) => match read_ts(t) {
-            Ok(ast) => json!({"k": "ok", "stmts": ast["stmts"], "schemaNs": star_import(&ast)}),
+            Ok(ast) => json!({"k": "ok", "stmts": ast["stmts"], "schemaNs": star_import(&ast), "schemaImport": star_import_from(&ast)}),
             Err(w) => json!({"k": "unreadable", "why": w, "text": t.chars().take(3000).collect::<String>()}),
         },
     }
